@@ -42,7 +42,9 @@ RULE = ("every set of 1-3 distinct strict orders over 3 alternatives (dynamic pr
         "(large instances: some reported optimum >= 1). Encoding cases (c12.enc, no solver call): for each of the three "
         "ILP functions the variables/bounds, the multiset of constraints and the objective of the python-mip model = "
         "the mirrored model of Model/ILPEnc.v, on every profile of 1-2 weak orders over m <= 2 (thorough: m <= 3) "
-        "alternatives and random soc/toc profiles m <= 5, n <= 4; non-trivial = m >= 3 and a non-empty constraint list")
+        "alternatives and random soc/toc profiles m <= 5, n <= 4; non-trivial = m >= 3 and a non-empty constraint list. "
+        "Every k_alternative_deletion call (m <= 12) is also compared with the mirrored dynamic programme c12.elp: "
+        "same number of removed alternatives (identical certificates are counted in the distribution)")
 EXHAUSTIVE = {"quick": "k_alternative_deletion on every set of 1-3 distinct strict orders over 3 alternatives; ILP "
                        "encodings (3 functions) on every profile of 1-2 distinct weak orders over m <= 2 alternatives and "
                        "every single weak order over 3",
@@ -55,8 +57,11 @@ TRUSTED = ["the solver: python-mip 2.0 / CBC returns an optimal feasible assignm
            "constraint builders, variable declarations and objectives of is_single_peaked_ILP, "
            "approx_SP_voter_deletion_ILP and approx_SP_alternative_deletion_ILP are MIRRORED (Model/ILPEnc.v), proved sound "
            "and complete for every size (Proofs/ILPEnc.v) and compared with the model python-mip receives (c12.enc)",
-           "(R) not verified: k_alternative_deletion / longest_single_peaked_axis (dynamic programme) - compared with the "
-           "verified reference min_alt_del on bounded inputs and through the verified checker cert_alt at every size; "
+           "k_alternative_deletion / longest_single_peaked_axis (dynamic programme) is MIRRORED (Model/ELPDP.v) and proved "
+           "sound for every size (elp_sound: its output is accepted by cert_alt; approx_valid for the C18 loop); NOT "
+           "proved: its optimality (|removed| = min_alt_del) - compared with the verified reference min_alt_del for "
+           "m <= 6 and with the mirror (same number of removed alternatives) at every size; the mirror fixes the "
+           "iteration order of CPython sets by two parameters, so (axis, removed) itself may differ: counted, not judged",
            "the three ILP functions are additionally compared end-to-end (objective = reference, certificates)"]
 ASSUMPTIONS = ["orders are complete over the instance's alternatives with non-empty classes; instance.orders holds "
                "distinct orders; the objective is unweighted (one unit per distinct order / per alternative); fewer than "
@@ -287,7 +292,7 @@ def generate(tier, seed):
         core = pick_core(rng, alts, prof, 5)
         if fl & 3 or is_strict(prof):
             out.append(mk(alts, prof, fl, 0, core=core, pv=pv, pa=pa, family=fam, large=1))
-    for i in range(20 if not thorough else 300):
+    for i in range(60 if not thorough else 600):
         m = rng.randint(7, 12)
         alts = rand_perm(rng, rng.sample(range(1, 60), m))
         fam = ["vot-planted", "alt-planted", "alt-planted"][i % 3]
